@@ -3,6 +3,7 @@
 -/
 import Theorems.C03
 import Theorems.Typed
+import Theorems.Lazy
 
 namespace Amqp.Codec
 open Amqp.Gen.Codes
